@@ -632,6 +632,35 @@ def flag_true_defs(f, cond, k):
     return out
 
 
+def flag_cond(f, cond):
+    """(expression, negated) when the condition is a plain test of a local flag that has exactly one definition, its initialiser, and every local the
+    initialiser reads is unchanged between that definition and the test: the test then says what the initialiser said.  None otherwise."""
+    from . import rd
+    t = simple_test(f, cond)
+    if t is None:
+        return None
+    decl, tag = t
+    defs = rd.local_defs(f, decl)
+    if len(defs) != 1 or defs[0]['kind'] != 'init' or defs[0]['rhs'] is None:
+        return None
+    rhs = defs[0]['rhs']
+    p_def, p_use = f.cfg.point_of(defs[0]['sid']), f.cfg.point_of(cond)
+    if p_def is None or p_use is None:
+        return None
+    for x in f.walk(rhs):
+        sx = f.stmts[x]
+        if sx['k'] in ('CallExpr', 'CXXMemberCallExpr', 'CXXOperatorCallExpr'):
+            return None
+        if sx['k'] == 'DeclRefExpr' and sx.get('dk') in ('Var', 'ParmVar'):
+            for d in rd.local_defs(f, sx['d']):
+                dp = f.cfg.point_of(d['sid'])
+                if d['kind'] != 'init' and dp is not None and f.cfg.exists_path(p_def, dp, src_inclusive=False) and f.cfg.exists_path(dp, p_use, src_inclusive=False):
+                    return None
+        if sx['k'] == 'MemberExpr':
+            return None
+    return rhs, tag == 'z'
+
+
 def guards_incl_flags(f, p):
     """controlling_branches(p) extended with the guards common to all true-definitions of every flag tested on the way"""
     base = list(f.cfg.controlling_branches(p))
